@@ -27,6 +27,7 @@ inductive PV where
   | arr (l : List PV)     -- a NumPy array: 1-D when the items are scalars, 2-D when they are arrays
   | set (l : List PV)     -- a set: its distinct elements in insertion order
   | dict (ks vs : List PV) -- a dict: keys and values in insertion order (same length)
+  | rat (num den : Int)   -- the result of a true division `a / b` of two ints (`den > 0`); only its sign is ever used
 deriving Repr, Inhabited
 
 abbrev RV := R PV
@@ -108,6 +109,8 @@ def PV.eqb : PV → PV → Bool
   | .list a, .list b => PV.eqbList a b
   | .tup a, .tup b => PV.eqbList a b
   | .arr a, .arr b => PV.eqbList a b
+  | .rat n d, .int b => n == b * d
+  | .int a, .rat n d => a * d == n
   | .none, .none => true
   | _, _ => false
 def PV.eqbList : List PV → List PV → Bool
@@ -128,6 +131,7 @@ def PV.truthy : PV → Bool
   | .arr l => !l.isEmpty      -- (NumPy raises for more than one element; conditions on arrays are outside the fragment)
   | .set l => !l.isEmpty
   | .dict ks _ => !ks.isEmpty
+  | .rat n _ => n != 0
 
 /-- bind of the exception monad, spelled out so that `simp` sees through it. -/
 @[inline] def bnd {α β} (m : R α) (k : α → R β) : R β :=
@@ -163,6 +167,12 @@ def pyLt (a b : PV) : R Bool :=
   | _, _ =>
     match a, b with
     | .str s, .str t => .ok (strLt s t)
+    | .rat n d, y => match y.asInt? with
+                     | some y => .ok (decide (n < y * d))
+                     | Option.none => .error .typeError
+    | x, .rat n d => match x.asInt? with
+                     | some x => .ok (decide (x * d < n))
+                     | Option.none => .error .typeError
     | _, _ => .error .typeError
 
 def pyLe (a b : PV) : R Bool :=
@@ -171,6 +181,12 @@ def pyLe (a b : PV) : R Bool :=
   | _, _ =>
     match a, b with
     | .str s, .str t => .ok (!strLt t s)
+    | .rat n d, y => match y.asInt? with
+                     | some y => .ok (decide (n ≤ y * d))
+                     | Option.none => .error .typeError
+    | x, .rat n d => match x.asInt? with
+                     | some x => .ok (decide (x * d ≤ n))
+                     | Option.none => .error .typeError
     | _, _ => .error .typeError
 
 @[inline] def pyGt (a b : PV) : R Bool := pyLt b a
@@ -412,6 +428,11 @@ def pyIndex (v i : PV) : RV :=
   | .dict ks vs => match findIdxEq i ks 0 with
                    | some j => .ok (vs.getD j .none)
                    | Option.none => .error .other
+  | .arr _ =>
+    match i with
+    | .list js => (mapM' (fun k => pyIndexSeq v k) js).map .arr      -- `a[[i, j, …]]` gathers
+    | .arr js => (mapM' (fun k => pyIndexSeq v k) js).map .arr
+    | _ => pyIndexSeq v i
   | _ => pyIndexSeq v i
 
 /-- an optional slice bound: `None` or an int. -/
@@ -470,6 +491,16 @@ def pySetItem (v i x : PV) : RV :=
   | .dict ks vs => match findIdxEq i ks 0 with
                    | some j => .ok (.dict ks (vs.set j x))
                    | Option.none => .ok (.dict (ks ++ [i]) (vs ++ [x]))
+  | .arr l =>
+    match i.asInt?, x.asInt? with
+    | some i', some n =>
+      match normIndex l.length i' with
+      | some j => match l.getD j .none with
+                  | .arr row => .ok (.arr (l.set j (.arr (row.map fun _ => .int n))))    -- `a[i] = c` fills row i
+                  | .bool _ => .ok (.arr (l.set j (.bool (n != 0))))                     -- a boolean array stays boolean
+                  | _ => pySetItemSeq v i x
+      | Option.none => .error .indexError
+    | _, _ => pySetItemSeq v i x
   | _ => pySetItemSeq v i x
 
 /-- `v.insert(i, x)` on a list, as a new list (the position clamps like a slice bound). -/
@@ -581,10 +612,16 @@ def npMul (a b : PV) : RV :=
   | _, .arr _ => arrBroadcast pyMul a b
   | _, _ => pyMul a b
 
+/-- comparison of one item of an array: a row of a two-dimensional array broadcasts once more. -/
+def cmpItem (c : PV → PV → R Bool) (x y : PV) : RV :=
+  match x with
+  | .arr _ => arrBroadcast (liftCmp c) x y
+  | _ => liftCmp c x y
+
 /-- comparisons: elementwise (an array of bools) when an operand is an array, otherwise Python's. -/
 def npCmp (c : PV → PV → R Bool) (a b : PV) : RV :=
   match a, b with
-  | .arr _, _ => arrBroadcast (liftCmp c) a b
+  | .arr _, _ => arrBroadcast (cmpItem c) a b
   | _, .arr _ => arrBroadcast (liftCmp c) a b
   | _, _ => (c a b).map .bool
 
@@ -843,5 +880,25 @@ def npMaskIndex (a m : PV) : RV :=
   | .arr xs, .arr ms => (maskSelect xs ms).map .arr
   | _, _ => .error .other
 
+
+/-! ## true division, boolean arrays -/
+
+/-- `a / b` on ints: the exact quotient (Python gives the nearest float; the fragment only ever compares it
+with an int, which is exact for the magnitudes involved). `ZeroDivisionError` is `PyErr.other`. -/
+def pyTrueDiv (a b : PV) : RV :=
+  match a.asInt?, b.asInt? with
+  | some x, some y => if y = 0 then .error .other
+                      else if y > 0 then .ok (.rat x y) else .ok (.rat (-x) (-y))
+  | _, _ => .error .typeError
+
+/-- `numpy.zeros(shape, dtype=bool)` / `numpy.ones(shape, dtype=bool)`, one dimension. -/
+def npFullBool (c : Bool) (shape : PV) : RV :=
+  match shape with
+  | .tup [.int n] => if n < 0 then .error .valueError else .ok (.arr (List.replicate n.toNat (.bool c)))
+  | .int n => if n < 0 then .error .valueError else .ok (.arr (List.replicate n.toNat (.bool c)))
+  | _ => .error .other
+
+def npZerosBool (shape : PV) : RV := npFullBool false shape
+def npOnesBool (shape : PV) : RV := npFullBool true shape
 
 end Dsw.Py
